@@ -158,9 +158,26 @@ func (vc *FuncVC) reflectModel(st *State, fr *Frame, instr ssa.Instruction, call
 }
 
 // reflectTypeMethod: methods invoked on a reflect.Type interface value.
-func (vc *FuncVC) reflectTypeMethod(st *State, instr ssa.Instruction, recv V, m string) ([]any, bool) {
+func (vc *FuncVC) reflectTypeMethod(st *State, instr ssa.Instruction, recv V, m string, args []any) ([]any, bool) {
 	vc.declT10()
 	switch m {
+	case "AssignableTo", "ConvertibleTo":
+		// identical types are assignable; for other pairs the answer is an unspecified function of the two types
+		if len(args) < 2 {
+			return nil, false
+		}
+		other, ok := args[1].(V)
+		if !ok {
+			return nil, false
+		}
+		vc.w.declare("rt"+m, fmt.Sprintf("(declare-fun rt%s (Type Type) Bool)\n(assert (forall ((t Type)) (! (rt%s t t) :pattern ((rt%s t t)))))", m, m, m))
+		vc.nopanic(st, "reflect-type-nil-arg", instr, not(eq(other.T, "nilI")))
+		t1 := app("rtidInv", app("uInt", app("pay", recv.T)))
+		t2 := app("rtidInv", app("uInt", app("pay", other.T)))
+		return []any{V{app("rt"+m, t1, t2), SBool, types.Typ[types.Bool]}}, true
+	case "Kind":
+		t := app("rtidInv", app("uInt", app("pay", recv.T)))
+		return []any{V{app("kindOf", t), SInt, nil}}, true
 	case "Elem":
 		t := app("rtidInv", app("uInt", app("pay", recv.T)))
 		vc.nopanic(st, "reflect-type-elem-kind", instr, kindIn(app("kindOf", t), 17, 18, 21, 22, 23))
